@@ -834,6 +834,8 @@ def gen_type(repo, file, name, opts, unit, em):
             em.raw("#[%s]\n" % o[5:])
     em.toks([gen(s2 + "\n\n")], file, src)
 
+DERIVED_FROM = {"C18": {"C15"}}
+
 def generate(repo, ov, prop=None, canary=False, only=None):
     """prop: property id -> functions serving it are verified, the others become stubs.
     only: explicit set of qnames to verify (overrides prop)."""
@@ -852,7 +854,8 @@ def generate(repo, ov, prop=None, canary=False, only=None):
             if re.search(r"\.into\(\)|::from\(", body): names |= {"from"}
             if re.search(r"[^-]>|<|==|\+|-", body): names |= {"add", "sub"}
             calls[q] = set(x for n_ in names for x in byname.get(n_, []))
-        roots = [q for q, fs in ov.fns.items() if prop in fs.serves]
+        # a property that is derived from another one (C18: "... or with extra read-only calls interleaved" rests on C15) takes its roots too
+        roots = [q for q, fs in ov.fns.items() if prop in fs.serves or (DERIVED_FROM.get(prop, set()) & set(fs.serves))]
         only = set(); work = list(roots)
         while work:
             q = work.pop()
@@ -885,6 +888,25 @@ def generate(repo, ov, prop=None, canary=False, only=None):
             flat.append(part); flat.extend(mods[part[1]]); flat.append(("modclose",))
         else:
             flat.append(part)
+    # R15: top-level `const` items of a file that the overlay does not list are extracted too (after the last listed item of that file
+    # in the module), so that a refactor which introduces a named constant stays inside the verified text
+    flat2 = []; curmod = None; modfiles = OrderedDict()
+    for idx_, part in enumerate(flat):
+        if part[0] == "modopen": curmod = part[1]
+        elif part[0] == "modclose": curmod = None
+        elif part[0] == "type":
+            modfiles.setdefault((curmod, part[1]), {"names": set(), "last": idx_})
+            modfiles[(curmod, part[1])]["names"].add(part[2]); modfiles[(curmod, part[1])]["last"] = idx_
+    auto_after = defaultdict(list)
+    for (m_, f_), d_ in modfiles.items():
+        src_, ftoks_, items_ = repo.load(f_)
+        for it_ in items_:
+            if it_.kind == "const" and not it_.impl_header and it_.name not in d_["names"] and it_.name != "_":
+                auto_after[d_["last"]].append(("type", f_, it_.name, ""))
+                unit.rules.hit("R15.autoconst")
+    for idx_, part in enumerate(flat):
+        flat2.append(part); flat2.extend(auto_after.get(idx_, []))
+    flat = flat2
     for part in flat:
         if part[0] == "raw":
             em.raw(part[1])
